@@ -34,3 +34,142 @@ def top_left_tile(e):
     wd, ht = tile_size(e["name"], e.get("direction", 0))
     x, y = e["position"]["x"], e["position"]["y"]
     return int(math.floor(x - wd / 2.0 + 1e-6)), int(math.floor(y - ht / 2.0 + 1e-6))
+
+
+# ------------------------------------------------------------------------------------------
+# paste validity (C08) and power coverage (C18)
+# ------------------------------------------------------------------------------------------
+POLE_NAMES = ("small-electric-pole", "medium-electric-pole", "big-electric-pole", "substation")
+FOUR_CONN = ("arithmetic-combinator", "decider-combinator", "selector-combinator")
+
+
+def box_of(e):
+    (a, b), (c, d) = collision_box(e["name"])
+    dr = e.get("direction", 0) % 16
+    if dr in (4, 12):
+        a, b, c, d = b, a, d, c      # rotated by 90 degrees: swap axes (boxes are symmetric enough)
+        a, c = min(a, c), max(a, c)
+        b, d = min(b, d), max(b, d)
+    x, y = e["position"]["x"], e["position"]["y"]
+    return (x + a, y + b, x + c, y + d)
+
+
+_reach = {}
+
+
+def _ent(name):
+    if name not in _reach:
+        from draftsman.entity import new_entity
+        import warnings
+        with warnings.catch_warnings():
+            warnings.simplefilter("ignore")
+            e = new_entity(name)
+        _reach[name] = (getattr(e, "circuit_wire_max_distance", None), getattr(e, "maximum_wire_distance", None))
+    return _reach[name]
+
+
+def wire_reach(name):
+    """circuit wire reach as draftsman derives it from the game data (poles: their wire distance)"""
+    r = _ent(name)[0]
+    if r is None:
+        r = proto(name).get("circuit_wire_max_distance")
+    return r if r is not None else 0
+
+
+def copper_reach(name):
+    r = _ent(name)[1]
+    return r if r is not None else proto(name).get("maximum_wire_distance", 0)
+
+
+def connectors_of(name):
+    if name in FOUR_CONN:
+        return {1, 2, 3, 4}
+    if name in POLE_NAMES:
+        return {1, 2, 5}
+    if name == "power-switch":
+        return {1, 2, 5, 6}
+    return {1, 2}
+
+
+def colour(c):
+    return {1: "red", 3: "red", 2: "green", 4: "green", 5: "copper", 6: "copper"}.get(c)
+
+
+def paste_problems(bp):
+    """Violated predicates of C08, canonical (no entity numbers / positions)."""
+    ents = {e["entity_number"]: e for e in bp.get("entities", [])}
+    probs = []
+    lst = list(ents.values())
+    boxes = [box_of(e) for e in lst]
+    order = sorted(range(len(lst)), key=lambda i: boxes[i][0])
+    eps = 1e-6
+    for ii, i in enumerate(order):
+        bi = boxes[i]
+        for j in order[ii + 1:]:
+            bj = boxes[j]
+            if bj[0] >= bi[2] - eps:
+                break
+            if bi[1] < bj[3] - eps and bj[1] < bi[3] - eps and bi[0] < bj[2] - eps:
+                probs.append(("overlap",) + tuple(sorted((lst[i]["name"], lst[j]["name"]))))
+    seen = set()
+    for wire in bp.get("wires", []) or []:
+        if len(wire) != 4:
+            probs.append(("malformed-wire", str(wire)))
+            continue
+        a, ca, b, cb = wire
+        if a not in ents or b not in ents:
+            probs.append(("wire-to-missing-entity",))
+            continue
+        ea, eb = ents[a], ents[b]
+        if ca not in connectors_of(ea["name"]) or cb not in connectors_of(eb["name"]):
+            probs.append(("no-such-connector", ea["name"], ca, eb["name"], cb))
+            continue
+        if colour(ca) != colour(cb):
+            probs.append(("colour-mismatch", ea["name"], ca, eb["name"], cb))
+            continue
+        d = math.dist((ea["position"]["x"], ea["position"]["y"]), (eb["position"]["x"], eb["position"]["y"]))
+        if colour(ca) == "copper":
+            reach = min(copper_reach(ea["name"]), copper_reach(eb["name"]))
+        else:
+            reach = min(wire_reach(ea["name"]), wire_reach(eb["name"]))
+        if d > reach + 1e-6:
+            probs.append(("wire-too-long", colour(ca)) + tuple(sorted((ea["name"], eb["name"]))))
+    return sorted(probs)
+
+
+def has_electric_source(name):
+    p = proto(name)
+    es = p.get("energy_source") or {}
+    return es.get("type") == "electric"
+
+
+def supply_problems(bp, pole_name):
+    """C18: every electric consumer overlaps the supply area of a pole of type pole_name; all poles
+    form one copper network with every copper wire within reach."""
+    ents = {e["entity_number"]: e for e in bp.get("entities", [])}
+    poles = [e for e in ents.values() if e["name"] == pole_name]
+    allpoles = [e for e in ents.values() if e["name"] in POLE_NAMES]
+    probs = []
+    r = proto(pole_name).get("supply_area_distance", 0)
+    areas = [(p["position"]["x"] - r, p["position"]["y"] - r, p["position"]["x"] + r, p["position"]["y"] + r) for p in poles]
+    for e in ents.values():
+        if e["name"] in POLE_NAMES or not has_electric_source(e["name"]):
+            continue
+        b = box_of(e)
+        if not any(b[0] < a[2] and a[0] < b[2] and b[1] < a[3] and a[1] < b[3] for a in areas):
+            probs.append(("unpowered", e["name"]))
+    # copper connectivity over all poles
+    parent = {p["entity_number"]: p["entity_number"] for p in allpoles}
+
+    def find(x):
+        while parent[x] != x:
+            parent[x] = parent[parent[x]]
+            x = parent[x]
+        return x
+    for a, ca, b, cb in bp.get("wires", []) or []:
+        if ca in (5, 6) and cb in (5, 6) and a in parent and b in parent:
+            parent[find(a)] = find(b)
+    comps = {find(p["entity_number"]) for p in allpoles}
+    if len(comps) > 1:
+        probs.append(("poles-not-one-network", len(comps)))
+    return sorted(probs)
